@@ -413,10 +413,10 @@ class C15(Prop):
                 out.append([kind, val, self.gen_prog(rng, depth - 1, open_blocks + ((kind, val),))])
             elif depth > 0 and k < 0.55:
                 out.append(["try", self.gen_prog(rng, depth - 1, open_blocks)])
-            elif k < 0.62:
+            elif k < 0.60:
                 out.append(["raise", rng.choice(["boom", "boom", "kbd", "sysexit", "genexit"])])
             elif k < 0.86:
-                out.append(["run", rng.choice(["ls", "make x", "a b", "false", "false y"]),
+                out.append(["run", rng.choice(["ls", "make x", "a b", "ls -l", "x y", "t", "false", "false y"]),
                             self.gen_call_kwargs(rng)])
             else:
                 kw = self.gen_call_kwargs(rng)
@@ -427,7 +427,7 @@ class C15(Prop):
                     kw["password"] = rng.choice(["secret", None])
                 if rng.random() < 0.45:
                     kw["env"] = rng.choice(ENVS + [None])
-                out.append(["sudo", rng.choice(["whoami", "apt x", "false z"]), kw])
+                out.append(["sudo", rng.choice(["whoami", "apt x", "id", "false z"]), kw])
         return out
 
     def gen_ctx(self, rng):
